@@ -211,6 +211,19 @@ def monLazy (inp : RunInput) (nTasks : Nat) (tr : List Ev) : Bool :=
   (List.range nTasks).all fun d =>
     !(tr.any (Ev.mentions d)) || (lazyIter inp nTasks tr (nTasks + 1) (addNew [] inp.sel)).contains d
 
+/-! hypothesis of `C11_lazy_monitor` (evaluated by the driver on every case) -/
+
+def boundedB (inp : RunInput) (n : Nat) : Bool :=
+  inp.sel.all (· < n) && (List.range n).all fun t =>
+    (inp.taskDep t).all (· < n) && (inp.calcDep t).all (· < n) && (inp.setup t).all (· < n) &&
+    (inp.calcRes t).tasks.all (· < n) && (inp.calcRes t).files.all (· < n) && (inp.calcRes t).calcs.all (· < n)
+
+/-- every task name that occurs in the run input is below `n` (what the harness passes as `nTasks`: the number of
+    tasks); decidable -/
+def Bounded (inp : RunInput) (n : Nat) : Prop := boundedB inp n = true
+
+instance (inp : RunInput) (n : Nat) : Decidable (Bounded inp n) := by unfold Bounded; infer_instance
+
 /-- and it completes before the task that requires it starts -/
 def setupBeforeFrom (inp : RunInput) : List Ev → List Ev → Bool
   | _, [] => true
